@@ -37,7 +37,7 @@ def gen_join_scenario(rng, variant, tier, style=None):
     v1 = variant == 2
     J = rng.choice([1, 2, 3, 4, 5, 7, 9])
     nocopy = rng.random() < 0.45
-    style = style or rng.choice(["untimed", "timed", "timed", "timed", "trickle", "slowcons", "tiny"])
+    style = style or rng.choice(["untimed", "timed", "timed", "timed", "trickle", "slowcons", "tiny", "blockedwrite"])
     unit = 10_000_000 if v1 else 1
     if style == "untimed":
         T, inacc = rng.choice([0, 0, -5]), rng.choice([0, 25, 100])
@@ -63,8 +63,21 @@ def gen_join_scenario(rng, variant, tier, style=None):
         else:
             ln = 1
         prod.append((d, ln))
+    if style == "blockedwrite" and T > 0:
+        # the consumer stalls after the first slice, the producer fills the output buffer so that a write blocks, then a
+        # sparse tail follows: a short slice right after the blocked write completed, silence, one more element, close
+        icap = rng.choice([0, 0, 1])
+        stall = rng.choice([2 * Tm, 3 * Tm, 5 * Tm])
+        nfill = J * (icap + 3)
+        prod = [(1 * (unit if not v1 else 1), J if variant == 1 else 1)] + [(0, (J if variant == 1 else 1))] * (nfill - 1)
+        if variant == 1:
+            prod = prod[: icap + 4]
+        prod.append((stall + 2 * unit, 1))
+        prod.append((rng.choice([3 * Tm, 4 * Tm]), 1))
     cons = []
-    if style == "slowcons" or rng.random() < 0.25:
+    if style == "blockedwrite" and T > 0:
+        cons = [(0, stall)]
+    elif style == "slowcons" or rng.random() < 0.25:
         for i in range(rng.randrange(1, 6)):
             cons.append((rng.choice([0, 0, 10 * unit, Tm // 2, 2 * Tm]) if nocopy else 0,
                          rng.choice([0, 0, 20 * unit, Tm // 2, Tm, 4 * Tm])))
@@ -191,3 +204,287 @@ class LimitTrace:
         m = v[pos]
         self.outs = [(v[pos + 1 + 2 * i], v[pos + 2 + 2 * i]) for i in range(m)]
         self.tclose = v[pos + 1 + 2 * m]
+
+
+def gen_limit_scenario(rng, tier, style=None):
+    Q = rng.choice([1, 1, 2, 3, 7, 100])
+    I = rng.choice([1000, 10 ** 6, 10 ** 9])
+    icap = rng.choice([0, 0, 1, 3, Q, 2 * Q])
+    style = style or rng.choice(["upfront", "upfront", "trickle", "stall-burst", "random", "slowcons"])
+    k = rng.randrange(0, 5)
+    N = rng.choice([0, max(Q - 1, 0), Q, k * Q, k * Q + 1, max(k * Q - 1, 0), rng.randrange(0, 40)])
+    N = min(N, 60 if tier == "quick" else 400)
+    if style == "upfront":
+        delays = [0] * N
+    elif style == "trickle":
+        g = rng.choice([I // (2 * Q) or 1, I // Q or 1, 2 * I // Q or 1, 2 * I])
+        delays = [g] * N
+    elif style == "stall-burst":
+        delays = [0] * N
+        for _ in range(rng.randrange(1, 3)):
+            if N:
+                delays[rng.randrange(N)] = rng.choice([2 * I + 1, 5 * I, 9 * I + 7])
+    else:
+        delays = [rng.choice([0, 0, 1, I // 3, I, 3 * I]) for _ in range(N)]
+    cons = []
+    if style == "slowcons" and N:
+        for idx in sorted(rng.sample(range(N), min(N, rng.randrange(1, 4)))):
+            cons.append((idx, rng.choice([I // 2, 3 * I, 7 * I])))
+    close_after = rng.choice([0, 1, I // 2, 3 * I])
+    enc = enc_limit(Q, I, icap, close_after, delays, cons)
+    meta = {"Q": Q, "I": I, "icap": icap, "N": N, "delays": delays, "cons": cons, "close_after": close_after, "style": style,
+            "upfront": all(d == 0 for d in delays), "prompt": not cons}
+    return Scenario(enc, style, meta, nontrivial=N >= 2, version="v2")
+
+
+# ------------------------------------------------------------------------------- suites for the join family
+def join_generate(variants, styles=None):
+    def generate(rng, tier):
+        n = 200 if tier == "quick" else 3000
+        out = []
+        for variant in variants:
+            for _ in range(n):
+                out.append(gen_join_scenario(rng, variant, tier, style=rng.choice(styles) if styles else None))
+        return out
+    return generate
+
+
+def _trace(sc, vals):
+    return JoinTrace(vals)
+
+
+def _project(kind, sc, tr):
+    if tr.error is not None:
+        return ["error", tr.error]
+    m = sc.meta
+    J = m["J"]
+    ins = inputs_of(m)
+    outs = [o[2] for o in tr.outs]
+    if kind == "C03":
+        return ["concat", [v for o in outs for v in o], [(len(o) == 0, len(o) > J) for o in outs], tr.tclose >= 0]
+    if kind == "C09":
+        return ["lengths", [len(o) for o in outs], [tr.outs[i][0] - (tr.outs[i - 1][0] if i else 0) for i in range(len(outs))]]
+    if kind == "C10":
+        put_of = {}
+        vals = [v for it in ins for v in it]
+        k = 0
+        for idx, it in enumerate(ins):
+            for v in it:
+                put_of[v] = tr.puts[idx] if idx < len(tr.puts) else None
+        return ["residence", [(v, o[0] - put_of.get(v)) if put_of.get(v) is not None else (v, None) for o in tr.outs for v in o[2]]]
+    if kind == "C11":
+        return ["boundaries", [(o[0], o[-1]) if o else None for o in outs]]
+    if kind == "C08":
+        return ["alias", [o[1] for o in tr.outs], [o[2] for o in tr.outs], sorted(set(tr.flags))]
+    return ["full", tr.puts, tr.outs, tr.tclose]
+
+
+def make_project(kind):
+    def project(sc, vals):
+        tr = JoinTrace(vals)
+        if tr.ambiguous:      # only the model sets this flag
+            return SKIP
+        return _project(kind, sc, tr)
+    return project
+
+
+def lower_bound_write(tr, i, ocap, puts_of_last):
+    """a lower bound of the instant slice i was written to the output: there had to be room (the slice ocap
+    positions earlier was already received) and its last element had to be put"""
+    lb = puts_of_last
+    if i - ocap >= 0:
+        lb = max(lb, tr.outs[i - ocap][0])
+    return lb
+
+
+def monitor_join(kind):
+    def monitor(sc, ir):
+        if ir.verdict != "ok":
+            return [("implementation verdict %s %s" % (ir.verdict, ir.raw[-200:].replace("\n", " ")), None)]
+        tr = JoinTrace(ir.vals)
+        m = sc.meta
+        if tr.error is not None:
+            exp_i, exp_code = interval_of(m["T"], m["inaccuracy"], m["variant"] == "join-v1")
+            if exp_i is None and exp_code == tr.error:
+                return []
+            return [("constructor returned error %s" % tr.error, None)]
+        J, T = m["J"], m["T"]
+        ins = inputs_of(m)
+        allvals = [v for it in ins for v in it]
+        outs = [o[2] for o in tr.outs]
+        key = "join:%s:%s" % (m["variant"], sc.enc[2:9])
+        fails = []
+        prompt = not m["cons"]
+        ocap = 1 if m["variant"] == "join-v1" else 1 + m["icap"]
+        put_of = {}
+        for idx, it in enumerate(ins):
+            for v in it:
+                put_of[v] = tr.puts[idx] if idx < len(tr.puts) else None
+        if kind == "C03":
+            if tr.tclose < 0:
+                fails.append("output never closed after the input was closed")
+            if [v for o in outs for v in o] != allvals:
+                fails.append("concatenation of the output slices differs from the input stream")
+            if any(len(o) == 0 for o in outs):
+                fails.append("empty output slice")
+            for o in outs:
+                if len(o) > J:
+                    if m["variant"] != "unite-v2":
+                        fails.append("join slice longer than JoinSize: %s" % o)
+                    elif not any(o == it and len(it) >= J for it in ins):
+                        fails.append("unite slice %s exceeds JoinSize but is not exactly one input slice of at least JoinSize" % o)
+        elif kind == "C11":
+            starts = {it[0] for it in ins if it}
+            ends = {it[-1] for it in ins if it}
+            for o in outs:
+                if not o:
+                    continue
+                if o[0] not in starts or o[-1] not in ends or o != list(range(o[0], o[-1] + 1)):
+                    fails.append("output slice %s splits an input slice (inputs %s)" % (o, [it for it in ins if it]))
+            for it in ins:
+                if len(it) >= J and it not in outs:
+                    fails.append("input slice %s of at least JoinSize elements is not an output slice of its own" % it)
+            if sum(len(o) for o in outs) != len(allvals):
+                fails.append("elements lost or invented")
+        elif kind == "C09":
+            if T <= 0:
+                ref = greedy_unite(ins, J) if m["variant"] == "unite-v2" else greedy_join(allvals, J)
+                if outs != ref:
+                    fails.append("without a timeout the output %s is not the greedy batching %s" % (outs, ref))
+            else:
+                for i in range(len(outs) - 1):     # non-final slices
+                    if outs[i] and not is_maximal(m, ins, outs, i):
+                        if i == 0:
+                            lb = 0
+                        else:
+                            last = outs[i - 1][-1] if outs[i - 1] else None
+                            lb = lower_bound_write(tr, i - 1, ocap, put_of.get(last) or 0)
+                        if tr.outs[i][0] - lb < T:
+                            fails.append("non-maximal non-final slice %s delivered at %d, less than Timeout=%d after the previous delivery (not before %d)"
+                                         % (outs[i], tr.outs[i][0], T, lb))
+        elif kind == "C10":
+            if T > 0 and prompt and m["divider"]:
+                div = m["divider"]
+                for o in tr.outs:
+                    for v in o[2]:
+                        if put_of.get(v) is None:
+                            continue
+                        res = o[0] - put_of[v]
+                        if res * div > T * div + T:
+                            fails.append("element %d stayed %d ns inside the discipline, allowed Timeout*(1+1/%d) = %d" % (v, res, div, T + T // div))
+                            break
+        elif kind == "C08":
+            for f in sorted(set(tr.flags)):
+                fails.append("harness flag: " + f)
+            if not m["nocopy"]:
+                al = [o[1] for o in tr.outs]
+                if al != list(range(len(al))):
+                    fails.append("copy mode: output slices share memory (alias classes %s)" % al)
+                if any(v == -7777 for o in outs for v in o):
+                    fails.append("copy mode: an output contains what the consumer wrote into an earlier slice")
+            else:
+                for i in range(len(tr.outs) - 1):
+                    hold = m["cons"][i][0] if i < len(m["cons"]) else 0
+                    if tr.outs[i + 1][0] < tr.outs[i][0] + hold:
+                        fails.append("no-copy mode: slice %d delivered at %d before slice %d was released at %d" % (i + 1, tr.outs[i + 1][0], i, tr.outs[i][0] + hold))
+            if [v for o in outs for v in o if v != -7777] != [v for v in allvals][:sum(len(o) for o in outs)] and tr.stop_ret < 0:
+                pass
+        return [("%s [%s J=%d nocopy=%s T=%d icap=%d prod=%s cons=%s -> outs %s close %d]" % (
+            f, m["variant"], J, m["nocopy"], T, m["icap"], m["prod"], m["cons"], tr.outs, tr.tclose), key) for f in fails[:3]]
+    return monitor
+
+
+JOIN_RULE = ("random timed scenarios inside a testing/synctest bubble (exact fake nanoseconds): JoinSize 1..9, copy/no-copy, no timeout / "
+             "timeouts 600..2400 (x10ms for v1) with inaccuracy 0,1,10,25,33,34,50,51,100 / tiny timeouts 4..40ns, input capacity 0..2J, "
+             "0..21 items (unite: slice lengths 0,1,J-1,J,J+1,2J,random), producer gaps 0..3*Timeout, consumer holds and pauses up to "
+             "4*Timeout, late close; non-trivial = at least two items; scenarios in which the model sees a tick and an input become ready "
+             "at the same instant are monitored but not compared")
+
+
+# ------------------------------------------------------------------------------------- suites for limit
+def limit_generate(styles=None):
+    def generate(rng, tier):
+        n = 300 if tier == "quick" else 5000
+        return [gen_limit_scenario(rng, tier, style=rng.choice(styles) if styles else None) for _ in range(n)]
+    return generate
+
+
+def limit_project(kind):
+    def project(sc, vals):
+        tr = LimitTrace(vals)
+        if tr.error is not None:
+            return ["error", tr.error]
+        if kind == "C04":
+            return ["times", sorted(tr.outs)]
+        return ["passthrough", [o[1] for o in tr.outs], tr.outs, tr.tclose]
+    return project
+
+
+def monitor_limit(kind):
+    def monitor(sc, ir):
+        if ir.verdict != "ok":
+            return [("implementation verdict %s %s" % (ir.verdict, ir.raw[-200:].replace("\n", " ")), None)]
+        tr = LimitTrace(ir.vals)
+        m = sc.meta
+        if tr.error is not None:
+            return [("constructor returned error %s for a valid rate" % tr.error, None)]
+        Q, I, N = m["Q"], m["I"], m["N"]
+        times = [o[0] for o in tr.outs]
+        fails = []
+        key = "limit:%d:%d:%d:%s" % (Q, I, N, m["style"])
+        if kind == "C04":
+            # cumulative bound: holds for receive times of any consumer
+            for j, t in enumerate(times):
+                cnt = j + 1
+                while cnt < len(times) and times[cnt] <= t:
+                    cnt += 1
+                if cnt > Q * (t // I + 1):
+                    fails.append("%d elements left the output by t=%d, allowed %d*(floor(t/%d)+1) = %d" % (cnt, t, Q, I, Q * (t // I + 1)))
+                    break
+            # window bound: on write times = receive times of a consumer that never pauses
+            if m["prompt"]:
+                n = len(times)
+                for i in range(n):
+                    hi = min(n, i + 3 * Q + 2)
+                    for j in range(i + 1, hi):
+                        w = times[j] - times[i]
+                        if j - i + 1 > Q * (w // I + 2):
+                            fails.append("%d elements within a window of %d ns (from t=%d), allowed %d*(floor(W/%d)+2) = %d"
+                                         % (j - i + 1, w, times[i], Q, I, Q * (w // I + 2)))
+                            break
+                    if fails:
+                        break
+        else:
+            if [o[1] for o in tr.outs] != list(range(1, N + 1)):
+                fails.append("output %s is not the input sequence 1..%d" % ([o[1] for o in tr.outs][:30], N))
+            if tr.tclose < 0:
+                fails.append("output never closed")
+            closed_at = (tr.puts[-1] if tr.puts else 0) + m["close_after"] if len(tr.puts) == N else None
+            if closed_at is not None and 0 <= tr.tclose < closed_at:
+                fails.append("output closed at %d before the input was closed at %d" % (tr.tclose, closed_at))
+            if times and tr.tclose >= 0 and tr.tclose < times[-1]:
+                fails.append("output closed before the last element was forwarded")
+            if m["prompt"]:
+                # fewer than Quantity elements since the start of a batch pass with no pause at all
+                for j in range(min(Q, len(times), len(tr.puts))):
+                    if times[j] != tr.puts[j] and m["icap"] == 0:
+                        fails.append("element %d of the first batch was delayed: put at %d, delivered at %d" % (j + 1, tr.puts[j], times[j]))
+                        break
+                if m["upfront"]:
+                    for j, t in enumerate(times):
+                        if t > (j // Q) * I:
+                            fails.append("element %d available up-front left at %d, later than floor(%d/%d)*Interval = %d" % (j + 1, t, j, Q, (j // Q) * I))
+                            break
+                    if N and tr.tclose >= 0 and closed_at is not None:
+                        # closure follows the closing of the input and the trailing delay of a complete last batch
+                        latest = max(((N + Q - 1) // Q - 1) * I, (N // Q) * I if N % Q == 0 else 0, closed_at)
+                        if tr.tclose > latest:
+                            fails.append("closed at %d, later than %d (input closed at %d)" % (tr.tclose, latest, closed_at))
+        return [("%s [Q=%d I=%d icap=%d N=%d style=%s cons=%s -> %s close %d]" % (f, Q, I, m["icap"], N, m["style"], m["cons"], tr.outs[:40], tr.tclose), key)
+                for f in fails[:3]]
+    return monitor
+
+
+LIMIT_RULE = ("random timed scenarios in a synctest bubble: Quantity 1,2,3,7,100; Interval 1us/1ms/1s; input capacity 0..2Q; N in {0,<Q,Q,kQ,kQ+-1,random} "
+              "elements; arrival up-front / trickle / stall-then-burst / random gaps; consumer pauses of 0.5..7 Intervals at up to three positions; "
+              "non-trivial = at least two elements")
